@@ -68,10 +68,11 @@ def hot_lines(src_dir):
         return _HOT_CACHE[src_dir]
     out = {}
     files = []
-    for sub in ("simulation/eas_optical", "simulation/atmosphere"):
-        d = os.path.join(src_dir, "nuspacesim", sub)
-        if os.path.isdir(d):
-            files += [os.path.join(d, f) for f in sorted(os.listdir(d)) if f.endswith(".py")]
+    for root, dirs, names in os.walk(os.path.join(src_dir, "nuspacesim")):
+        dirs.sort()
+        if os.sep + "data" in root or os.sep + "apps" in root:
+            continue
+        files += [os.path.join(root, f) for f in sorted(names) if f.endswith(".py")]
     for path in files:
         try:
             code = compile(open(path).read(), path, "exec")
@@ -686,3 +687,30 @@ def draw_world(ctx, src_dir, *, allow_faults, n_items, modes=MODES, force_mode=N
     cfg["fault"] = fault
     world = SimWorld(ctx, src_dir, mode=mode, workers=workers, chunksize=chunksize, cfg=cfg)
     return world
+
+
+# ------------------------------------------------------------------ plain concurrent callers
+
+
+def run_interleaved(ctx, src_dir, fns, quantum_policy="targeted"):
+    """Run the callables `fns` as concurrent callers: each in a real thread that executes only
+    while it holds the baton, pre-empted at repository-line granularity by the seeded scheduler.
+    Returns [(result, exception)] in the order of `fns`, and the number of context switches."""
+    world = SimWorld(ctx, src_dir, mode="interleaved", workers=len(fns), chunksize=1,
+                     cfg={"tick": False, "fault": None, "stragglers": set(), "quantum_policy": quantum_policy})
+    futs = [world._submit(fn, (), {}) for fn in fns]
+    ctx.probes["preempt_after_shared_write"] += 0
+    n = 0
+    while any(not f.done() for f in futs):
+        world.step()
+        n += 1
+        if n > 2_000_000:
+            raise HarnessError("step cap exceeded in run_interleaved")
+    out = []
+    for f in futs:
+        e = f.exception()
+        out.append((None if e is not None else f.result(), e))
+    ctx.sim_time += world.now
+    if world.preempt_after_hot:
+        ctx.probes["preempt_after_shared_write"] += world.preempt_after_hot
+    return out, world.context_switches
